@@ -204,6 +204,7 @@ func (c *deleteCleaner) deleteSegments(segments []*segment) error {
 	// Remaining files will be cleaned up on the next cleanup cycle.
 	var firstErr error
 	for _, seg := range segments {
+		crashPoint("retention:before-segment-delete")
 		if err := seg.Delete(); err != nil {
 			c.Logger.Warnf("Failed to delete segment %d: %v", seg.BaseOffset, err)
 			if firstErr == nil {
